@@ -31,6 +31,10 @@ type C04Conf struct {
 	CutoffNs      int64   `json:"retention_load_cutoff_ns"`
 	E2E           bool    `json:"e2e,omitempty"`
 	AgeOverNs     int64   `json:"age_over_retention_ns,omitempty"` // e2e: marker age = retention + this
+	// e2e: the peer snapshot that still carries the swept marker was itself taken this long ago (the last
+	// snapshot of an instance that has been offline for a while, re-loaded at start-up): what counts for
+	// the cutoff is the time of loading, not the age of the snapshot
+	SnapAgeNs int64 `json:"snapshot_age_ns,omitempty"`
 }
 
 // maxDays: largest retention representable as a time.Duration
@@ -90,6 +94,7 @@ func checkC04Conf(c C04Conf, o *vcore.Obs) error {
 	o.NonTrivial(c.CutoffNs > 0 && c.RetentionDays > 0)
 	o.ClassIf(c.CutoffNs <= 0, "default-1-percent")
 	o.ClassIf(c.CutoffNs > int64(r), "cutoff-larger-than-retention")
+	o.ClassIf(time.Duration(c.SnapAgeNs) >= 24*time.Hour, "peer-snapshot-older-than-a-day")
 	o.ClassIf(c.RetentionDays > 35583, "retention>35583d")
 	return nil
 }
@@ -231,7 +236,17 @@ func checkC04E2E(c C04Conf, o *vcore.Obs) error {
 	if haveOldLive {
 		snap.DBIs[0].Entries = append(snap.DBIs[0].Entries, model.KV{Key: []byte("oldlive"), TS: uint64(expiredTS.UnixNano()), Flags: 1})
 	}
-	upd := MkUpdate(snap, now)
+	takenAt := now.Add(-time.Duration(c.SnapAgeNs))
+	if c.SnapAgeNs > 0 && takenAt.UnixNano() > 0 {
+		snap.Meta.TimestampNano = uint64(takenAt.UnixNano())
+		// (the one second old marker below cannot be in a snapshot older than itself)
+		if time.Duration(c.SnapAgeNs) >= time.Second {
+			snap.DBIs[0].Entries[1].TS = uint64(takenAt.Add(-time.Second).UnixNano())
+		}
+	} else {
+		takenAt = now
+	}
+	upd := MkUpdate(snap, takenAt)
 	if _, _, err := s.LoadOnce(context.Background(), env.Env, "peer", upd, header.TxnID(lm.LastTxnID(env.Env))); err != nil {
 		return fmt.Errorf("LoadOnce: %v", err)
 	}
@@ -257,10 +272,11 @@ func checkC04E2E(c C04Conf, o *vcore.Obs) error {
 			return fmt.Errorf("a deletion at T (older than the load cutoff) arrived for a key whose stored live version is older than T, but the key is still live: deletions must win against older versions whatever the sweeper settings")
 		}
 	}
-	if !present("young2") {
+	if !present("young2") && time.Duration(c.SnapAgeNs) < time.Second {
 		return fmt.Errorf("a one second old marker was refused as stale: retention=%v minus-cutoff=%v", r, sw.RetentionDurationMinusCutoff())
 	}
 	o.NonTrivial(true)
+	o.ClassIf(time.Duration(c.SnapAgeNs) >= 24*time.Hour, "peer-snapshot-older-than-a-day")
 	o.ClassIf(c.RetentionDays > 35583, "retention>35583d")
 	o.ClassIf(!haveExpired, "retention-reaches-before-1970")
 	return nil
@@ -280,6 +296,7 @@ func TestC04SweepThenLoad(t *testing.T) {
 			c := genC04Conf(t)
 			c.E2E = true
 			c.AgeOverNs = int64(rapid.SampledFrom([]time.Duration{time.Second, time.Hour, 24 * time.Hour}).Draw(t, "over"))
+			c.SnapAgeNs = int64(rapid.SampledFrom([]time.Duration{0, 0, time.Second, time.Hour, 10 * 24 * time.Hour, 300 * 24 * time.Hour}).Draw(t, "snap_age"))
 			// keep a good share of cases executable: retention below ~56 years
 			if rapid.IntRange(0, 3).Draw(t, "limit") > 0 && c.RetentionDays > 20000 {
 				c.RetentionDays = float32(rapid.IntRange(1, 20000).Draw(t, "days_lim"))
